@@ -51,7 +51,10 @@ def run(main_tla, cfg_path, wd, workers=16, args=(), env=None, timeout=3600, pro
                            timeout=timeout, text=True, errors="replace")
     except subprocess.TimeoutExpired as ex:
         subprocess.run(["pkill", "-f", "tlc2[.]TLC.*%s" % re.escape(wd)], check=False)
+        shutil.rmtree(os.path.join(wd, "md"), ignore_errors=True)
         raise MachineryError("TLC timed out after %ss on %s" % (timeout, main_tla)) from ex
+    # TLC's on-disk state (gigabytes for the larger searches) is of no use once it has finished
+    shutil.rmtree(os.path.join(wd, "md"), ignore_errors=True)
     return p.returncode, p.stdout, time.time() - t0
 
 
